@@ -87,6 +87,7 @@ class PdoModel:
             off += e["bits"]
         self.nbits = off
         self.data = bytes((off + 7) // 8)
+        self.sent = None          # payload last handed to the running task (start / data-update calls)
         self.period = None
         self.running = None       # period of the live task
         self.fresh = False        # no update() since the task was started
@@ -135,7 +136,8 @@ class Model:
                 out.append(Expected(net, "sync", "sync", 0x80, b"", False, s["running"], s["optional"]))
         for key, p in self.pdo.items():
             if p.running is not None:
-                out.append(Expected(p.net, p.who, "pdo", p.cob, p.data, False, p.running))
+                out.append(Expected(p.net, p.who, "pdo", p.cob, p.data if p.sent is None else p.sent, False,
+                                    p.running))
         for nid, h in self.hb.items():
             if h["running"] is not None:
                 out.append(Expected("S", f"node{nid}.heartbeat", "heartbeat", 0x700 + nid,
@@ -240,6 +242,7 @@ class Model:
         m.period = p
         m.running = p
         m.fresh = True
+        m.sent = m.data
 
     def _pdo_stop(self, op, v):
         m = self._map(op)
@@ -279,6 +282,7 @@ class Model:
         if m.running is not None:
             v.flags.add("U")
             m.fresh = False
+            m.sent = m.data
 
     def _pdo_assign(self, op, v):
         m = self._map(op)
@@ -290,11 +294,21 @@ class Model:
         if m.running is not None:
             v.flags.add("U")
             m.fresh = False
+            m.sent = m.data
 
     def _pdo_update(self, op, v):
         m = self._map(op)
         if m.running is not None:
             m.fresh = False
+            m.sent = m.data
+
+    def _pdo_poke(self, op, v):
+        """PdoMap.data changed in place without a data-update call: the map holds the new bytes, the
+        running task keeps sending what it was given last - until the next update call."""
+        m = self._map(op)
+        new = bytes(op["data"])
+        assert len(new) == len(m.data), "generator error: payload length"
+        m.data = new
 
     def _pdo_rx(self, op, v):
         m = self._map(op)
